@@ -33,6 +33,7 @@ import (
 
 	"verif/harness/cbor"
 	"verif/harness/h"
+	_ "verif/harness/warm"
 	"verif/harness/keys"
 	"verif/harness/tok"
 	"verif/harness/val"
